@@ -152,3 +152,189 @@ Proof.
   intros HT. unfold sumN. induction ws as [|w r IH]; cbn [map fold_right]; [lia|].
   pose proof (N.mul_div_le (w * m) T). nia.
 Qed.
+
+(* ------------------------------------------------------------------ *)
+(** * The population loop *)
+
+Section Pop.
+  Variables (offs skips targets : list N) (m : N) (n : nat).
+  Hypothesis Hprime : prime (Z.of_N m).
+  Hypothesis Hskips : forall b, (b < n)%nat -> 1 <= nth b skips 0 < m.
+  Hypothesis Htlen : length targets = n.
+  Hypothesis Htsum : sumN targets = m.
+
+  Definition PI (p : pop) : Prop :=
+    length (p_table p) = N.to_nat m /\ length (p_filled p) = n /\
+    p_count p = N.of_nat (nsome (p_table p)) /\ p_count p = sumN (p_filled p).
+
+  Lemma m_pos : 0 < m.
+  Proof. destruct Hprime. lia. Qed.
+
+  Lemma slot_lt off skip j : (slot off skip m j < N.to_nat m)%nat.
+  Proof. unfold slot. pose proof m_pos. pose proof (N.mod_lt (off + j * skip) m). lia. Qed.
+
+  Lemma pass_step b p :
+    (b < n)%nat -> PI p -> p_count p < m ->
+    exists j c,
+      find_free (p_table p) (nth b offs 0) (nth b skips 0) m (nth b (p_next p) 0) (S (N.to_nat m)) = Some (j, c) /\
+      let p' := mkP (upd (p_table p) c (Some b)) (upd (p_next p) b (j + 1))
+                    (upd (p_filled p) b (nth b (p_filled p) 0 + 1)) (p_count p + 1) in
+      PI p'.
+  Proof.
+    intros Hb (L1 & L2 & C1 & C2) Hc.
+    destruct (exists_free (p_table p)) as [c0 [Hc0 Hf0]]; [lia|].
+    destruct (cover_N m (nth b skips 0) (nth b offs 0) (nth b (p_next p) 0) c0 Hprime (Hskips b Hb)) as [d [Hd Hs]]; [lia|].
+    destruct (find_free_some (p_table p) (nth b offs 0) (nth b skips 0) m (S (N.to_nat m)) (nth b (p_next p) 0))
+      as (j & c & E & Ec & Hn).
+    { exists d. split; [lia|]. rewrite Hs. exact Hf0. }
+    exists j, c. split; [exact E|]. cbn zeta.
+    assert (Hcl : (c < length (p_table p))%nat) by (rewrite L1, Ec; apply slot_lt).
+    unfold PI. cbn [p_table p_filled p_count]. repeat split.
+    - rewrite upd_length. exact L1.
+    - rewrite upd_length. exact L2.
+    - rewrite nsome_upd by assumption. lia.
+    - pose proof (sumN_upd (p_filled p) b (nth b (p_filled p) 0 + 1)) as S. rewrite L2 in S. specialize (S Hb). lia.
+  Qed.
+
+  Lemma pass_progress : forall bs p,
+    (forall b, In b bs -> (b < n)%nat) -> PI p ->
+    let p' := pop_pass offs skips targets m bs p in
+    PI p' /\ p_count p <= p_count p' /\
+    (p_count p < m -> (exists b, In b bs /\ nth b (p_filled p) 0 < nth b targets 0) -> p_count p < p_count p').
+  Proof.
+    induction bs as [|b rest IH]; intros p Hbs HP; cbn [pop_pass]; cbn zeta.
+    - split; [assumption|split; [lia|]]. intros _ [b [[] _]].
+    - destruct (m <=? p_count p) eqn:E1.
+      + apply N.leb_le in E1. split; [assumption|split; [lia|]]. intros; lia.
+      + apply N.leb_gt in E1.
+        assert (Hrest : forall b0, In b0 rest -> (b0 < n)%nat) by (intros; apply Hbs; right; assumption).
+        destruct (nth b targets 0 <=? nth b (p_filled p) 0) eqn:E2.
+        * apply N.leb_le in E2. destruct (IH p Hrest HP) as (I1 & I2 & I3).
+          split; [assumption|split; [assumption|]]. intros Hlt [b' [[<-|Hin] Hw]]; [lia|].
+          apply I3; auto. exists b'. split; assumption.
+        * destruct (pass_step b p (Hbs b (or_introl eq_refl)) HP E1) as (j & c & E & HP').
+          rewrite E. cbn zeta in HP'.
+          match goal with |- context [pop_pass _ _ _ _ rest ?q] => destruct (IH q Hrest HP') as (I1 & I2 & _) end.
+          cbn [p_count] in I2. split; [assumption|split; [lia|]]. intros; lia.
+  Qed.
+
+  Lemma loop_fills : forall fuel p,
+    PI p -> m <= p_count p + N.of_nat fuel ->
+    let p' := pop_loop offs skips targets m (seq 0 n) p fuel in
+    PI p' /\ m <= p_count p'.
+  Proof.
+    induction fuel as [|f IH]; intros p HP Hf; cbn [pop_loop]; cbn zeta.
+    - split; [assumption|lia].
+    - destruct (m <=? p_count p) eqn:E1; [apply N.leb_le in E1; split; assumption|].
+      apply N.leb_gt in E1.
+      assert (Hseq : forall b, In b (seq 0 n) -> (b < n)%nat) by (intros b Hb; apply in_seq in Hb; lia).
+      destruct (pass_progress (seq 0 n) p Hseq HP) as (I1 & I2 & I3).
+      apply IH; [exact I1|].
+      assert (p_count p < p_count (pop_pass offs skips targets m (seq 0 n) p)).
+      { apply I3; [exact E1|].
+        destruct HP as (L1 & L2 & C1 & C2).
+        destruct (sum_lt_exists (p_filled p) targets) as [i [Hi Hlt]]; [lia|lia|].
+        exists i. split; [apply in_seq; lia|exact Hlt]. }
+      lia.
+  Qed.
+End Pop.
+
+(* ------------------------------------------------------------------ *)
+(** * [Maglev::rebuild] is total *)
+
+Lemma nth_map0 {A} (f : A -> N) (l : list A) (d : A) b :
+  (b < length l)%nat -> nth b (map f l) 0 = f (nth b l d).
+Proof.
+  intros H. rewrite (nth_indep (map f l) 0 (f d)) by (rewrite map_length; exact H). apply map_nth.
+Qed.
+
+Lemma sumN_pos l : l <> [] -> Forall (fun w => 1 <= w) l -> 0 < sumN l.
+Proof.
+  unfold sumN. destruct l as [|x r]; [congruence|]. intros _ H. inversion H; subst. cbn [fold_right]. lia.
+Qed.
+
+Lemma nsome_repeat_none k : nsome (repeat None k) = 0%nat.
+Proof. unfold nsome. induction k as [|k IH]; cbn; auto. Qed.
+
+Lemma sumN_repeat0 k : sumN (repeat 0 k) = 0.
+Proof. unfold sumN. induction k as [|k IH]; cbn [repeat fold_right]; [reflexivity|]. rewrite IH. reflexivity. Qed.
+
+Lemma maglev_rebuild_total hashes size aw :
+  aw <> [] -> prime (Z.of_N size) -> Forall (fun e => 1 <= snd e) aw ->
+  let mg := maglev_rebuild hashes size aw in
+  m_size mg = size /\ m_addrs mg = map fst aw /\
+  length (m_table mg) = N.to_nat size /\
+  Forall (fun e => exists i, e = Some i /\ (i < length aw)%nat) (m_table mg).
+Proof.
+  intros Hne Hp Hw.
+  assert (Hm : 2 <= size) by (destruct Hp; lia).
+  unfold maglev_rebuild.
+  assert (E : ((length aw =? 0)%nat || (size =? 0)) = false).
+  { apply orb_false_iff. split; [apply Nat.eqb_neq; destruct aw; cbn; congruence|apply N.eqb_neq; lia]. }
+  rewrite E. cbn zeta. cbn [m_size m_addrs m_table].
+  set (n := length aw). set (m := size). assert (Hm' : 2 <= m) by exact Hm.
+  set (addrs := map fst aw).
+  set (offs := map (fun a => fst (lookup2 a hashes) mod m) addrs).
+  set (skips := map (fun a => snd (lookup2 a hashes) mod (m - 1) + 1) addrs).
+  set (weights := map snd aw).
+  set (targets0 := map (fun w => w * m / sumN weights) weights).
+  set (targets := distribute targets0 n 0 (N.to_nat (m - sumN targets0))).
+  set (p0 := mkP (repeat None (N.to_nat m)) (repeat 0 n) (repeat 0 n) 0).
+  assert (Hn : (0 < n)%nat) by (unfold n; destruct aw; cbn; [congruence|lia]).
+  assert (HT : 0 < sumN weights).
+  { apply sumN_pos; [unfold weights; destruct aw; cbn; congruence|]. unfold weights. apply Forall_map. exact Hw. }
+  assert (HS0 : sumN targets0 <= m).
+  { pose proof (floor_sum_le m (sumN weights) HT weights) as F. fold targets0 in F. nia. }
+  destruct (distribute_sum n (N.to_nat (m - sumN targets0)) targets0 0 Hn) as [D1 D2].
+  { unfold targets0, weights. rewrite !map_length. reflexivity. }
+  fold targets in D1, D2.
+  assert (Hskips : forall b, (b < n)%nat -> 1 <= nth b skips 0 < m).
+  { intros b Hb. unfold skips. rewrite (nth_map0 _ addrs 0) by (unfold addrs; rewrite map_length; exact Hb).
+    pose proof (N.mod_lt (snd (lookup2 (nth b addrs 0) hashes)) (m - 1)) as R.
+    set (r := snd (lookup2 (nth b addrs 0) hashes) mod (m - 1)) in *. clearbody r. lia. }
+  assert (HP0 : PI m n p0).
+  { unfold PI, p0. cbn [p_table p_filled p_count]. rewrite !repeat_length. repeat split.
+    - rewrite nsome_repeat_none. reflexivity.
+    - rewrite sumN_repeat0. reflexivity. }
+  assert (Hsum : sumN targets = m) by (rewrite D1; lia).
+  destruct (loop_fills offs skips targets m n Hp Hskips D2 Hsum (N.to_nat m) p0 HP0) as [(L1 & L2 & C1 & C2) Hfull].
+  { unfold p0. cbn [p_count]. lia. }
+  set (p := pop_loop offs skips targets m (seq 0 n) p0 (N.to_nat m)) in *.
+  repeat split; auto.
+  assert (HN : nsome (p_table p) = length (p_table p)).
+  { pose proof (nsome_le (p_table p)). lia. }
+  pose proof (all_some _ HN) as AS.
+  pose proof (pop_loop_ok offs skips targets m n (N.to_nat m) (seq 0 n) (N.to_nat m) p0) as OK.
+  destruct OK as [_ OKf].
+  { intros b Hb. apply in_seq in Hb. lia. }
+  { split; cbn [p_table]; [apply repeat_length|apply Forall_repeat; exact I]. }
+  fold p in OKf.
+  rewrite Forall_forall in *. intros e He. specialize (AS e He). specialize (OKf e He).
+  destruct e as [i|]; [|discriminate]. exists i. split; [reflexivity|exact OKf].
+Qed.
+
+(** the weights the model feeds to [rebuild] are the clamped [backend_weight]s *)
+Lemma addr_weights_pos hp l : Forall (fun e => 1 <= snd e) (addr_weights hp l).
+Proof.
+  unfold addr_weights. apply Forall_map. apply Forall_forall. intros h _. cbn [snd].
+  unfold weight_of. destruct (b_weight (hget hp h)) as [w|]; lia.
+Qed.
+
+(* ------------------------------------------------------------------ *)
+(** * The production table size is prime *)
+
+Definition no_divisor (p : Z) : bool :=
+  forallb (fun d => negb (p mod (Z.of_nat d) =? 0)%Z) (seq 2 (Z.to_nat p - 2)).
+
+Lemma prime_by_trial p : (1 < p)%Z -> no_divisor p = true -> prime p.
+Proof.
+  intros H1 H. apply prime_alt. split; [exact H1|].
+  intros k Hk D. unfold no_divisor in H. rewrite forallb_forall in H.
+  specialize (H (Z.to_nat k)). rewrite Z2Nat.id in H by lia.
+  assert (Hin : In (Z.to_nat k) (seq 2 (Z.to_nat p - 2))) by (apply in_seq; lia).
+  specialize (H Hin). apply negb_true_iff, Z.eqb_neq in H. apply H.
+  apply Z.mod_divide; [lia|exact D].
+Qed.
+
+Lemma prime_65537 : prime 65537.
+Proof. apply prime_by_trial; [lia|vm_compute; reflexivity]. Qed.
